@@ -111,9 +111,3 @@ func (Precompile).Run
     ensures query_frame: result.1 == nil && (name == "denomTrace" || name == "denomTraces" || name == "denomHash") ==> cstate == flushed && sdb_delta == old(sdb_delta) && g_kind == old(g_kind) && g_exp == old(g_exp) && g_limited == old(g_limited) && g_limit == old(g_limit) && g_ta == old(g_ta)
     ensures c05_readonly_frame: readOnly && result.1 == nil && name != "allowance" ==> cstate == flushed && g_kind == old(g_kind) && g_limit == old(g_limit) && sdb_delta == old(sdb_delta)
 @*/
-
-/*@
-// the allowance query consumes SDK gas like every other method (its contract - tag c16a - is verified in the C16-allowance part)
-extend func (Precompile).Allowance
-    modifies gasw
-@*/
